@@ -188,6 +188,12 @@ class World:
             if stop_on_violation and self.violations:
                 self.stopped = True
                 break
+            if any("|hang" in v.sig for v in self.violations[-2:]) or \
+                    any("|hang" in v.sig for v in self.known_hits[-2:]):
+                # a call that does not return within the confirmation budget:
+                # nothing more can be learnt from this run at a sensible price
+                self.stopped = True
+                break
         return self.violations
 
     def step(self, op):
@@ -297,7 +303,8 @@ class World:
             except Exception as e:  # noqa: BLE001
                 self.report({"C09"}, f"spec|build-raised:{type(e).__name__}|{model.CLASSNAME[kind]}", repr(e))
                 return
-        self.put_graph(dst, m, real, [], self.new_family())
+        sl = self.put_graph(dst, m, real, [], self.new_family())
+        sl.data["reserved"] = bool(op.get("reserved"))
         self.coherent(dst, {"C09"}, "spec")
 
     def op_drop(self, op):
